@@ -19,6 +19,8 @@ def mgrNames : List (String × Mgr) :=
    ("mam", .mam), ("muc", .muc), ("pubsub", .pubsub), ("registration", .registration),
    ("roster", .roster), ("rpc", .rpc), ("transfer", .transfer), ("transfer+accept", .transferAccept),
    ("transfer+decline", .transferDecline), ("transfer+job", .transferJob), ("transfer+jobopen", .transferJobOpen),
+   ("transfer+acceptro", .transferAcceptRO), ("transfer+jobopen-fail", .transferJobOpenFail),
+   ("transfer+jobopen-short", .transferJobOpenShort), ("transfer+jobfailed", .transferJobFailed),
    ("muc+room", .mucRoom), ("uploadRequest", .uploadRequest),
    ("vcard", .vcard), ("version", .version), ("accountMigration", .accountMigration),
    ("attention", .attention), ("callInvite", .callInvite), ("externalService", .externalService),
